@@ -33,7 +33,7 @@ func strAttr(names ...string) []attrDef {
 	return out
 }
 func leaf(names ...string) *specNode { return &specNode{Attrs: strAttr(names...)} }
-func at(n, e string) gItem          { return gItem{Attr: &gAttr{n, e}} }
+func at(n, e string) gItem           { return gItem{Attr: &gAttr{n, e}} }
 func blk(t string, labels []string, body ...gItem) gItem {
 	return gItem{Block: &gBlock{t, labels, body}}
 }
@@ -75,6 +75,16 @@ func corpus() []corpusCase {
 			dyn("a", "mk_empty", "", nil, at("p", "«a».value"))}},
 		{"marked-list", listOf("a", kList, nil, leaf("p")), []gItem{
 			dyn("a", "mk_list", "", nil, at("p", "«a».value"))}},
+		{"marked-partial-remain (#10)", listOf("a", kList, nil, leaf("p", "q")), []gItem{
+			dyn("a", "mk_list", "", nil, at("p", `"x"`), at("q", "«a».value"))}},
+		{"marked-unknown-for_each-collections", &specNode{Blocks: []blockDef{{"a", kList, nil, leaf("p")}, {"b", kSet, nil, leaf("p")}, {"c", kTuple, nil, leaf("p")}, {"d", kMap, []string{"key"}, leaf("p")}, {"e", kObject, []string{"key"}, leaf("p")}}}, []gItem{
+			dyn("a", "mk_ulist", "", nil, at("p", `"x"`)),
+			dyn("b", "mk_ulist", "", nil, at("p", `"x"`)),
+			dyn("c", "mk_ulist", "", nil, at("p", `"x"`)),
+			dyn("d", "mk_ulist", "", []string{`"l"`}, at("p", `"x"`)),
+			dyn("e", "mk_ulist", "", []string{`"l"`}, at("p", `"x"`))}},
+		{"marked-single-empty-content", listOf("a", kSingle, nil, leaf("p")), []gItem{
+			dyn("a", "mk_list", "", nil)}},
 		{"block-attrs-in-dynamic", listOf("a", kAttrs, nil, nil), []gItem{
 			dyn("a", `["x"]`, "", nil, at("u", "«a».value"))}},
 		{"null-for_each", listOf("a", kList, nil, leaf("p")), []gItem{dyn("a", "nul_list", "", nil, at("p", `"x"`))}},
@@ -113,9 +123,10 @@ func caseFor(seed uint64, corp bool, idx int) *genCase {
 			"ll":      cty.ListVal([]cty.Value{cty.ListVal([]cty.Value{cty.StringVal("p")}), cty.ListValEmpty(cty.String), cty.ListVal([]cty.Value{cty.StringVal("q"), cty.StringVal("r")})}),
 			"lo": cty.ListVal([]cty.Value{cty.ObjectVal(map[string]cty.Value{"k": cty.StringVal("K"), "v": cty.ListVal([]cty.Value{cty.StringVal("1"), cty.StringVal("2")})}),
 				cty.ObjectVal(map[string]cty.Value{"k": cty.StringVal("L"), "v": cty.ListVal([]cty.Value{cty.StringVal("3")})})}),
-			"tp":      cty.TupleVal([]cty.Value{cty.StringVal("t"), cty.NumberIntVal(2), cty.True}),
-			"o_mix":   cty.ObjectVal(map[string]cty.Value{"a": cty.StringVal("A"), "b": cty.NumberIntVal(3)}),
-			"mk_list": cty.ListVal([]cty.Value{cty.StringVal("secret")}).Mark("m1"),
+			"tp":       cty.TupleVal([]cty.Value{cty.StringVal("t"), cty.NumberIntVal(2), cty.True}),
+			"o_mix":    cty.ObjectVal(map[string]cty.Value{"a": cty.StringVal("A"), "b": cty.NumberIntVal(3)}),
+			"mk_list":  cty.ListVal([]cty.Value{cty.StringVal("secret")}).Mark("m1"),
+			"mk_ulist": cty.UnknownVal(cty.List(cty.String)).Mark("m4"),
 		} {
 			full[k] = v
 		}
@@ -222,7 +233,7 @@ func run(cfg *hv.RunCfg) error {
 	cf := &hv.CaseFile{Dir: cfg.Out, Name: "c18cases",
 		Imports: "From Coq Require Import QArith String.\nFrom HclV Require Import Base.Prelude Cty.Values Cty.Convert Cty.Ops Eval.Impl Eval.Funcs Dyn.Expand Dyn.Unroll Dyn.ExpandCheck.",
 		Ctype:   "xcase", Checker: "check_expand_cases",
-		Extras: [][2]string{{"skipped", "skipped_expand_cases"}, {"unroll_bad", "check_unroll_cases"}, {"unroll_not_applicable", "unroll_applicable_cases"}}}
+		Extras: [][2]string{{"skipped", "skipped_expand_cases"}, {"unroll_bad", "check_unroll_cases"}, {"unroll_applicable", "unroll_applicable_cases"}}}
 	rn := &runner{rep, cf}
 	if cfg.Replay != "" {
 		b, err := os.ReadFile(cfg.Replay)
